@@ -39,4 +39,18 @@ finally:
     sh('git -C /repo worktree remove --force %s' % wt)
     # restore generated tables / evidence for the real tree
     sh('./check %s > /dev/null 2>&1' % pid, cwd=V)
+if '--archive' in sys.argv and res.get('patch_applies') and res.get('demo_on_original') == 0 and res.get('demo_on_changed') not in (0, None) and '95 passed' in res.get('tests', ''):
+    k = 1
+    while os.path.exists(os.path.join(V, 'seeded', '%s-%d' % (pid, k))): k += 1
+    dst = os.path.join(V, 'seeded', '%s-%d' % (pid, k)); os.makedirs(dst)
+    for f in ('patch.diff', 'demo.py'): shutil.copy(os.path.join(d, f), dst)
+    meta2 = dict(meta, confirmed=dict(
+        how='fresh scratch worktree of /repo HEAD (%s): git apply patch.diff; baseline suite; demo.py on original and changed tree; VERIF_REPO=<worktree> ./check %s (quick, seed %s)' % (
+            subprocess.check_output(['git', '-C', '/repo', 'rev-parse', '--short', 'HEAD']).decode().strip(), pid, os.environ.get('VERIF_SEED', '0')),
+        baseline_suite=res['tests'], demo_on_original_exit=res['demo_on_original'], demo_on_changed_exit=res['demo_on_changed'],
+        demo_output=res.get('demo_out'), check_exit=res.get('check_exit'), check_wall_s=res.get('check_wall'),
+        check_lines=res.get('check_lines'), violated=res.get('clauses'),
+        caught=(res.get('check_exit') == 1), caught_with_failing_input=(res.get('check_exit') == 1 and not any('no-failing-input-found' in l for l in res.get('check_lines', []) if l.startswith('VIOLATION')))))
+    json.dump(meta2, open(os.path.join(dst, 'meta.json'), 'w'), indent=1)
+    res['archived'] = dst
 print(json.dumps(res))
